@@ -11,7 +11,9 @@
     stdlib     `isstdlibtype(unwrap(t))`                                                   graph.py:144
     leaf       `isliteral(unwrap(t)) or isunresolvable(unwrap(t))`                         graph.py:118-121
     unwrapped  id of `unwrap(t)`                                                            graph.py:131
-    ucls       `inspect.isclass(unwrap(t))`                                                 graph.py:159
+    qualified  `not named and unwrap(t) is not t and inspect.isclass(unwrap(t))`: a qualified spelling of a
+               class (`ClassVar[Node]`, `Final[Node]`)                                      graph.py:153-155
+    ucls       `inspect.isclass(unwrap(t))`                                                 graph.py:171
     children   `_level(unwrap(t))` minus `constants.empty` / `typing.Any`                   graph.py:126-129
 
   The harness extracts this structure from the real objects with the real helpers, so the model runs on
@@ -23,6 +25,7 @@ namespace Typelib.Graph
 
 structure TyInfo where
   named : Bool
+  qualified : Bool
   stdlib : Bool
   leaf : Bool
   unwrapped : Nat
@@ -40,6 +43,7 @@ variable (g : TyGraph)
 def size : Nat := g.tys.length
 
 def named (t : Nat) : Bool := match g.tys[t]? with | some i => i.named | none => false
+def qualified (t : Nat) : Bool := match g.tys[t]? with | some i => i.qualified | none => false
 def stdlib (t : Nat) : Bool := match g.tys[t]? with | some i => i.stdlib | none => false
 def leaf (t : Nat) : Bool := match g.tys[t]? with | some i => i.leaf | none => false
 def unw (t : Nat) : Nat := match g.tys[t]? with | some i => i.unwrapped | none => t
@@ -51,34 +55,40 @@ def kids (t : Nat) : List (Option Str × Nat) :=
   | some i => if i.leaf then [] else i.children
   | none => []
 
-/-- `can_be_cyclic` (graph.py:145): a named type outside the standard library. -/
-def cuttable (t : Nat) : Bool := g.named t && !g.stdlib t
+/-- `can_be_cyclic` (graph.py:157): a named type, or a qualified spelling of a class, outside the standard library. -/
+def cuttable (t : Nat) : Bool := (g.named t || g.qualified t) && !g.stdlib t
 
 def kidTys (t : Nat) : List Nat := (g.kids t).map Prod.snd
 
 end TyGraph
 
-/-- `TypeNode` (graph.py:193): identity = (type, unwrapped, var, cyclic).  `isRef`: the `type` field is a
-    `ForwardRef` built at graph.py:154 for the type object `ty` (the abstract model keeps the id of the
-    type the reference stands for; the harness checks `refs.evaluate(node.type)` is that object). -/
+/-- `TypeNode` (graph.py:203): identity = (type, unwrapped, var, cyclic).
+    `isRef`: the node is DEFERRED by a forward reference built by graph.py and not walked: either its `type`
+    field is `ForwardRef(ty)` (graph.py:166, `qual = false`) or — for a qualified spelling of a class — it keeps
+    the annotation `ty` itself as `type` and only its `unwrapped` field is `ForwardRef(unwrap(ty))`
+    (graph.py:161-164, `qual = true`).  The abstract model keeps the ids of the types the references stand for;
+    the harness checks `refs.evaluate` of the real references gives those objects. -/
 structure Node where
   ty : Nat
   unwrapped : Nat
   var : Option Str
   cyclic : Bool
   isRef : Bool
+  qual : Bool
   deriving Repr, DecidableEq
 
 /-- `is_visited` (graph.py:138). -/
 def seen (g : TyGraph) (vis : List Nat) (c : Nat) : Bool := vis.contains c || vis.contains (g.unw c)
 
-/-- The deferred node of graph.py:149-163: `uref` names the unwrapped type only if it is a class. -/
+/-- The deferred node of graph.py:160-175: for a qualified class the annotation itself with a reference to the
+    class as `unwrapped`; otherwise a reference to the type, `uref` naming the unwrapped type only if it is a class. -/
 def refNode (g : TyGraph) (v : Option Str) (c : Nat) : Node :=
-  { ty := c, unwrapped := if g.ucls c then g.unw c else c, var := v, cyclic := true, isRef := true }
+  { ty := c, unwrapped := if g.qualified c then g.unw c else if g.ucls c then g.unw c else c, var := v,
+    cyclic := true, isRef := true, qual := g.qualified c }
 
-/-- The walked node of graph.py:169-172 (`cyclic = is_rewalk`). -/
+/-- The walked node of graph.py:181-184 (`cyclic = is_rewalk`). -/
 def plainNode (g : TyGraph) (v : Option Str) (c : Nat) (cyc : Bool) : Node :=
-  { ty := c, unwrapped := g.unw c, var := v, cyclic := cyc, isRef := false }
+  { ty := c, unwrapped := g.unw c, var := v, cyclic := cyc, isRef := false, qual := false }
 
 /-- Result of the inner loop over one parent's members. -/
 structure Exp where
@@ -215,7 +225,7 @@ def subKids (g : TyGraph) (a b : Nat) : Bool := (g.kidTys a).all (fun c => (g.ki
 def unwOKAt (g : TyGraph) (t : Nat) : Bool :=
   subKids g (g.unw t) t && subKids g t (g.unw t) && g.unw (g.unw t) == g.unw t
 
-/-- Every cycle of the member relation passes through a named non-stdlib type (certified by `rank`),
+/-- Every cycle of the member relation passes through a named or qualified non-stdlib type (certified by `rank`),
     members of stdlib types are stdlib types, `unwrap` is idempotent and members are those of the unwrapped type. -/
 def wf (g : TyGraph) : Bool :=
   (List.range g.size).all (fun t => rankOKAt g (rank g) t && stdlibClosedAt g t && unwOKAt g t)
